@@ -129,7 +129,7 @@ def regen_tables():
 def coq_targets(spec, pid):
     """The .vo files this property's check needs: its property file and the modules its case
     files import (each with everything it depends on)."""
-    t = [spec.get("props", "props/%s.v" % pid)[:-2] + ".vo"]
+    t = [spec.get("props", "props/%s.v" % pid)[:-2] + ".vo"] + [x[:-2] + ".vo" for x in spec.get("props_extra", [])]
     for m in re.findall(r"\b([A-Z]\w*)\b", " ".join(re.findall(r"From Ship Require Import ([^.]*)\.", spec.get("imports", "")))):
         if os.path.exists(os.path.join(COQ, "theories", m + ".v")):
             t.append("theories/%s.vo" % m)
@@ -154,27 +154,30 @@ def vo_uptodate(vfile):
 
 
 def check_props(pid, spec, wd):
-    """Re-run coqc on the property file (cheap: `exact lemma` + Print Assumptions) to
-    collect the assumptions of every theorem; report which theorems exist and whether
-    the file and all it depends on compiled this run."""
-    vfile = spec.get("props", "props/%s.v" % pid)
-    src = open(os.path.join(COQ, vfile)).read()
-    theorems = re.findall(r"^(?:Theorem|Corollary)\s+(\w+)", src, re.M)
-    deps_ok = vo_uptodate(vfile)
-    rc, out, _ = sh(["coqc"] + COQ_Q + [vfile, "-o", os.path.join(wd, os.path.basename(vfile)[:-2] + ".vo")], cwd=COQ, timeout=600)
-    open(os.path.join(wd, "props.log"), "w").write(out)
-    ok = deps_ok and rc == 0
-    assumptions = {}
-    # "Closed under the global context" or "Axioms:\n name : type ..."
-    blocks = re.split(r"(?=^Closed under the global context|^Axioms:)", out, flags=re.M)
-    blocks = [b for b in blocks if b.startswith("Closed") or b.startswith("Axioms:")]
-    for th, b in zip(theorems, blocks):
-        if b.startswith("Closed"):
-            assumptions[th] = []
-        else:
-            assumptions[th] = re.findall(r"^(\S+)\s*:", b[len("Axioms:"):], re.M)
-    return dict(ok=ok, theorems=theorems, assumptions=assumptions, log=out, deps_ok=deps_ok,
-                complete=len(blocks) == len(theorems))
+    """Re-run coqc on the property file(s) (cheap: `exact lemma` + Print Assumptions) to
+    collect the assumptions of every theorem; report which theorems exist and whether the
+    files and all they depend on compiled this run."""
+    files = [spec.get("props", "props/%s.v" % pid)] + list(spec.get("props_extra", []))
+    res = dict(ok=True, theorems=[], assumptions={}, log="", deps_ok=True, complete=True)
+    for vfile in files:
+        src = open(os.path.join(COQ, vfile)).read()
+        theorems = re.findall(r"^(?:Theorem|Corollary)\s+(\w+)", src, re.M)
+        deps_ok = vo_uptodate(vfile)
+        rc, out, _ = sh(["coqc"] + COQ_Q + [vfile, "-o", os.path.join(wd, os.path.basename(vfile)[:-2] + ".vo")], cwd=COQ, timeout=600)
+        open(os.path.join(wd, "props_%s.log" % os.path.basename(vfile)[:-2]), "w").write(out)
+        blocks = re.split(r"(?=^Closed under the global context|^Axioms:)", out, flags=re.M)
+        blocks = [b for b in blocks if b.startswith("Closed") or b.startswith("Axioms:")]
+        for th, b in zip(theorems, blocks):
+            if b.startswith("Closed"):
+                res["assumptions"][th] = []
+            else:
+                res["assumptions"][th] = re.findall(r"^(\S+)\s*:", b[len("Axioms:"):], re.M)
+        res["ok"] = res["ok"] and deps_ok and rc == 0
+        res["deps_ok"] = res["deps_ok"] and deps_ok
+        res["complete"] = res["complete"] and len(blocks) == len(theorems)
+        res["theorems"] += theorems
+        res["log"] += out
+    return res
 
 
 # ---------------------------------------------------------------- case evaluation
